@@ -78,7 +78,8 @@ def gen_case(rng, i, tier):
         "op": rng.choice(["diff", "interp"] if vector else ["diff", "interp", "min", "max"] if faces else ["diff", "interp", "min", "max", "cumsum"]),
         "vector": vector,
         "keep_coords": rng.choice([True, False, None]), "carry": rng.random() < 0.5,
-        "name": rng.choice(["nm", "temperature", None]), "boundary": rng.choice(["fill", "extend", "periodic"]),
+        # the input may be called like a coordinate of the grid dataset (an interpolated longitude is still "lon") or like a dimension
+        "name": rng.choice(["nm", "temperature", None] + ([rng.choice(aux)["name"]] * 2 if aux else []) + [rng.choice(alld)]), "boundary": rng.choice(["fill", "extend", "periodic"]),
         "dseed": rng.getrandbits(31), "fc": fc,
     }
 
